@@ -37,14 +37,19 @@ def openSpec (c : Cfg) (e : Env) : Bool × Ids × Option Active × Env :=
     (en, child, some ⟨⟨a.tp.traceId, some sid, if en then a.tp.flags % 256 else 0⟩, a.tp.spanId⟩,
       { e with rng := rng1 + 1, out := .spanOpen en seen :: e.out })
   | none =>
-    let d := c.decide e.calls
-    (d, child, some ⟨⟨traceId, some sid, if d then 1 else 0⟩, none⟩,
-      { e with rng := rng1 + 1, calls := e.calls + 1, out := .spanOpen d seen :: .sampler traceId sid d :: e.out })
+    if c.hasSampler then
+      let d := c.decide e.calls
+      (d, child, some ⟨⟨traceId, some sid, if d then 1 else 0⟩, none⟩,
+        { e with rng := rng1 + 1, calls := e.calls + 1, out := .spanOpen d seen :: .sampler traceId sid d :: e.out })
+    else
+      -- no sampler configured: every new trace is sampled
+      (true, child, some ⟨⟨traceId, some sid, 1⟩, none⟩,
+        { e with rng := rng1 + 1, out := .spanOpen true seen :: e.out })
 
 theorem openSpan_eq_spec (c : Cfg) (e : Env) (hb : Below e.st e.rng) : openSpan c e = openSpec c e := by
   unfold openSpan openSpec incoming
   cases hst : e.st with
-  | none => simp [ambientIds, Ids.empty, Option.filter, maskIsSampled, applyMask]; cases c.decide e.calls <;> simp [TP.sampled, applyMask]
+  | none => simp [ambientIds, Ids.empty, Option.filter, maskIsSampled, applyMask]; cases c.hasSampler <;> cases c.decide e.calls <;> simp [TP.sampled, applyMask]
   | some a =>
     by_cases hv : a.tp.valid = true
     · have hne1 : a.tp.spanId ≠ some (Id.gen (e.rng + 1)) := by
@@ -67,13 +72,13 @@ theorem openSpan_eq_spec (c : Cfg) (e : Env) (hb : Below e.st e.rng) : openSpan 
       · cases ht : a.tp.traceId with
         | none =>
           simp [ambientIds, hs, ht, Option.filter, hv0, maskIsSampled, applyMask]
-          cases c.decide e.calls <;> simp [TP.sampled, applyMask]
+          cases c.hasSampler <;> cases c.decide e.calls <;> simp [TP.sampled, applyMask]
         | some t =>
           simp [ambientIds, hs, ht, Option.filter, hv0, maskIsSampled, applyMask]
-          cases c.decide e.calls <;> simp [TP.sampled, applyMask]
+          cases c.hasSampler <;> cases c.decide e.calls <;> simp [TP.sampled, applyMask]
       · have hs0 : a.tp.sampled = false := by simpa using hs
         simp [ambientIds, hs0, Ids.empty, Option.filter, hv0, maskIsSampled, applyMask]
-        cases c.decide e.calls <;> simp [TP.sampled, applyMask]
+        cases c.hasSampler <;> cases c.decide e.calls <;> simp [TP.sampled, applyMask]
 
 @[simp] theorem openSpan_st (c : Cfg) (e : Env) : (openSpan c e).2.2.2.st = e.st := by
   simp [openSpan]
